@@ -118,10 +118,13 @@ def run(ctx):
     cls = ctx.prog.cls(PF + 'PolyphaseFilterbank')
     derived, base = ctx.exp.build(cls)
     init = ctx.func(PF + 'PolyphaseFilterbank.__init__')
-    ctx.require('window' in derived, 'PolyphaseFilterbank.window is no longer a pure function of (num_taps, num_branches, window_fn)')
-    ctx.formula('FORMULA', 'self.window == get_pfb_window(num_taps, num_branches, window_fn)', init, derived['window'],
-                ctx.spec(init, 'get_pfb_window(self.num_taps, self.num_branches, self.window_fn)', I=ctx.interp(expand=False)),
-                node=init.node, construct='self.window')
+    if 'window' not in derived:
+        ctx.ob('FORMULA', 'self.window is a pure function of (num_taps, num_branches, window_fn) — no hidden state enters the window',
+               init, False, {'derived_attributes': sorted(derived)}, node=init.node, construct='self.window')
+    else:
+        ctx.formula('FORMULA', 'self.window == get_pfb_window(num_taps, num_branches, window_fn)', init, derived['window'],
+                    ctx.spec(init, 'get_pfb_window(self.num_taps, self.num_branches, self.window_fn)', I=ctx.interp(expand=False)),
+                    node=init.node, construct='self.window')
 
     # ---- D2 front end
     ctx.clause = 'D2'
